@@ -22,12 +22,12 @@ ASSUMPTIONS = ['failure to establish a connection is excepted by the property: t
                'virtual time: every wait happens on the harness clock; a transport-operation budget of 100000 stands for "hangs"',
                'binary transactions whose frames contain delimiter bytes are excluded (KF-BINARY-FRAMER-DELIMITER-BYTES)']
 BUDGET = {'quick': 8000, 'thorough': 12000}
-CLIENTS = ['tcp', 'rtu', 'ascii', 'binary', 'udp', 'tcp+rtu', 'tcp+ascii']
+CLIENTS = ['tcp', 'rtu', 'ascii', 'binary', 'udp', 'tcp+rtu', 'tcp+ascii']     # the TLS client is outside the property's quantifier (see DESIGN 6)
 BEHAVIOURS = ['reply', 'exc', 'nothing', 'partial', 'garbage', 'wrong_unit', 'stale', 'late', 'oserror_send', 'oserror_recv', 'close', 'undecodable', 'wrong_unit_long']
 
 
 def framing_of(c):
-    return {'tcp': 'tcp', 'udp': 'tcp', 'rtu': 'rtu', 'ascii': 'ascii', 'binary': 'binary', 'tcp+rtu': 'rtu', 'tcp+ascii': 'ascii'}[c]
+    return {'tcp': 'tcp', 'udp': 'tcp', 'rtu': 'rtu', 'ascii': 'ascii', 'binary': 'binary', 'tcp+rtu': 'rtu', 'tcp+ascii': 'ascii', 'tls': 'tls'}[c]
 
 
 @st.composite
@@ -119,6 +119,8 @@ class FaultPeer(transports.Peer):
             return []
         uid, tid, rpdu = p['uid'], p['tid'] or 0, p['pdu']
         beh = ['reply'] if self.healthy or not self.script else self.script.pop(0)
+        if self.framing == 'tls' and beh[0] in ('wrong_unit', 'wrong_unit_long', 'stale'):
+            beh = ['nothing']          # a TLS record carries neither unit nor transaction id
         self.last_behaviour = beh[0]
         good = transports.reply_pdu(rpdu, self.seq)
         frame = refframe.build(self.framing, uid, good, tid, 0)
@@ -178,6 +180,9 @@ def _mk_client(kind, case, w=None):
         return ModbusTcpClient('peer', 502, **kw)
     if kind == 'udp':
         return ModbusUdpClient('peer', 502, **kw)
+    if kind == 'tls':
+        from pymodbus.client.sync import ModbusTlsClient
+        return ModbusTlsClient('peer', 802, sslctx=transports.FakeTlsContext(), **kw)
     if kind in ('tcp+rtu', 'tcp+ascii'):
         from pymodbus.transaction import ModbusRtuFramer, ModbusAsciiFramer
         return ModbusTcpClient('peer', 502, framer=ModbusRtuFramer if kind == 'tcp+rtu' else ModbusAsciiFramer, **kw)
